@@ -90,21 +90,30 @@ fn shape_query(rng: &mut Rng, lang: &str, lobj: &Lang, recs: &[Rec], which: Whic
 impl Shape {
     fn store_case(&self, cx: &mut Cx, lang: &'static str) {
         let corpus = corpus_recs();
-        let n = cx.rng.range(1, 6);
+        let crowd = cx.rng.chance(1, 40);
+        let n = if crowd { cx.rng.range(70, 150) } else { cx.rng.range(1, 6) };
         let mut recs: Vec<Rec> = vec![];
         for i in 0..n {
-            let t = shape_title(&mut cx.rng, lang, &corpus);
+            let t = if crowd {
+                // many hits for one query, and now and then a title of several hundred words (a very long output)
+                if i == 3 { (0..cx.rng.range(150, 400)).map(|_| gen::any_word(&mut cx.rng, lang)).collect::<Vec<_>>().join(" ") } else { format!("metal {} {}", gen::any_word(&mut cx.rng, lang), i) }
+            } else {
+                shape_title(&mut cx.rng, lang, &corpus)
+            };
             recs.push((100 + i * 5, t, cx.rng.below(50)));
         }
-        let limit = *cx.rng.pick(&[10, 10, 10, 1, 2, 3, 65536]);
+        if crowd {
+            cx.count("stores of 70-150 records with one very long title");
+        }
+        let limit = if crowd { 200 } else { *cx.rng.pick(&[10, 10, 10, 1, 2, 3, 65536]) };
         let st = St::build_sentinel(lang, &recs, limit);
         let (ml, mr) = *cx.rng.pick(gen::MARKERS);
         let st_m = if self.0 == Which::Titles { Some(St::build(lang, &recs, limit, (ml, mr))) } else { None };
         let toks: Vec<TextOwn> = recs.iter().map(|r| st.tok_record(&r.1)).collect();
         let rgrams: Vec<BTreeSet<oracle::Gram>> = toks.iter().map(oracle::grams_of).collect();
         for _ in 0..8 {
-            let q = shape_query(&mut cx.rng, lang, &st.store.lang, &recs, self.0);
-            cx.ctx(format!("lang={} recs={:?} limit={} q={:?} markers=({:?},{:?})", lang, recs, limit, q, ml, mr));
+            let q = if crowd && cx.rng.chance(1, 2) { if cx.rng.chance(1, 2) { "metal".to_string() } else { recs[3.min(recs.len() - 1)].1.clone() } } else { shape_query(&mut cx.rng, lang, &st.store.lang, &recs, self.0) };
+            cx.ctx(format!("lang={} records={} limit={} q={:?} markers=({:?},{:?})", lang, recs.len(), limit, q, ml, mr));
             let hits = st.search(&q);
             let tq = st.tok_query(&q);
             let describe = |hit: &(usize, String)| json!({"lang": lang, "records": recs, "limit": limit, "query": q, "hit": {"id": hit.0, "title": hit.1}});
@@ -591,7 +600,7 @@ impl Prop for Shape {
     }
     fn floors(&self) -> Vec<(&'static str, u64, u64)> {
         match self.0 {
-            Which::Titles => vec![("hit with span", 2000, 20000), ("hit whose title needed composition", 50, 500), ("hit with expanding letter", 50, 500), ("hit whose title has NUL", 30, 300), ("hit whose title contains marker text", 50, 500), ("bridge searches with hits", 200, 2000), ("empty-query searches", 100, 1000)],
+            Which::Titles => vec![("hit with span", 2000, 20000), ("hit whose title needed composition", 50, 500), ("hit with expanding letter", 50, 500), ("hit whose title has NUL", 30, 300), ("hit whose title contains marker text", 50, 500), ("bridge searches with hits", 200, 2000), ("empty-query searches", 100, 1000), ("stores of 70-150 records with one very long title", 100, 5000)],
             Which::Related => vec![("hit with fuzzy span", 200, 2000), ("hit with joined-record spans", 20, 200), ("exact-prefix case", 2000, 20000), ("exact-prefix ending inside an expanded letter", 5, 50), ("corpus-store searches", 300, 8000), ("corpus-store searches with more than 8 query words", 50, 1200), ("big-catalogue searches", 100, 1000)],
             Which::Markup => vec![("hit with 2+ spans", 500, 5000), ("joined-record split (more spans than query words)", 20, 200), ("hit of separator-only query", 200, 2000), ("span in title with padding", 30, 300), ("joined-with-typos hits with 2+ spans and typos", 2000, 100000)],
         }
